@@ -267,7 +267,12 @@ def small_case(rng):
                 key = gen_mat_key(rng, x['phases'], names, groups, malformed)
                 ck = key[1][1] if key[0] in 'tl' and len(key[1]) == 2 else KE
             w = key_width(ck, glen)
-            ops.append(['set', i, key, gen_data(rng, n if w is None else w, malformed, cap=n if w is None else None)])
+            dt = gen_data(rng, n if w is None else w, malformed, cap=n if w is None else None)
+            if x['kind'] == 'm' and key[0] in 'tl' and len(key[1]) == 2 and key[1][0] == KE:
+                # (..., IDs) goes through SparseArray column assignment (C09): scalars, or vectors of exactly the indexed length
+                if ck[0] in 'tl' and dt[0] == 'v': dt = ['v', (dt[1] + [1.0] * len(ck[1]))[:len(ck[1])]]
+                elif dt[0] != 'n': dt = ['n', float(rng.choice(VALS))]
+            ops.append(['set', i, key, dt])
         elif r < 0.92:
             m = rng.randint(0, len(other))
             cas = rng.sample(other, m) if rng.random() < 0.8 else rng.sample(sorted(set(names + groups)), min(2, len(set(names))))
